@@ -441,6 +441,11 @@ func runC18(r *mc.Run) {
 	for k := 0; k < 4; k++ {
 		cases = append(cases, c18case{0, 0, k*384 + 5, (300 + k) << 8}, c18case{0, 0, k*384 + 5, (300+k)<<8 | 1})
 	}
+	// the parsed message's 16-bit numeric fields widened by 65536 (the serialised, signed form cannot tell): such a
+	// message is not a valid quote (lg>>8 = 310 + field)
+	for f := 0; f < 7; f++ {
+		cases = append(cases, c18case{0, 0, -1, (310 + f) << 8})
+	}
 	for reg := 0; reg < 4; reg++ {
 		for f := 0; f < 7; f++ {
 			cases = append(cases, c18case{0, 0, reg * 384, (200 + 7*reg + f) << 8}, c18case{0, 0, reg*384 + 383, (200 + 7*reg + f) << 8})
@@ -536,7 +541,10 @@ func runC18(r *mc.Run) {
 			id += ",header-svns=pce0x0201/qe0x0100"
 		}
 		c18Fields := []string{"mr_seam", "mrsigner_seam", "mr_td", "mr_config_id", "mr_owner", "mr_owner_config", "next-register"}
-		if fb := c.lg >> 8; fb >= 300 {
+		c18Wide := []string{"qe_report.isv_svn", "qe_report.isv_prod_id", "header.version", "header.attestation_key_type", "header.version(+131072)", "certification_data.type", "qe_auth_data.parsed_data_size"}
+		if fb := c.lg >> 8; fb >= 310 {
+			id += ",message-" + c18Wide[fb-310] + "+65536"
+		} else if fb >= 300 {
 			id += fmt.Sprintf(",message-rtmr%d-replaced-by-replay-value-after-parsing", fb-300)
 		} else if fb >= 200 {
 			id += fmt.Sprintf(",replay-value-of-rtmr%d-in-%s", (fb-200)/7, c18Fields[(fb-200)%7])
@@ -625,6 +633,27 @@ func runC18(r *mc.Run) {
 			return
 		}
 		presentedDiffers := false
+		if fb := c.lg >> 8; fb >= 310 {
+			sd := q.GetSignedData().GetCertificationData()
+			qc := sd.GetQeReportCertificationData()
+			switch fb - 310 {
+			case 0:
+				qc.QeReport.IsvSvn += 65536
+			case 1:
+				qc.QeReport.IsvProdId += 65536
+			case 2:
+				q.Header.Version += 65536
+			case 3:
+				q.Header.AttestationKeyType += 65536
+			case 4:
+				q.Header.Version += 2 * 65536
+			case 5:
+				sd.CertificateDataType += 65536
+			case 6:
+				qc.QeAuthData.ParsedDataSize += 65536
+			}
+			presentedDiffers = true
+		}
 		if fb := c.lg >> 8; fb >= 300 && fb < 304 && c.bit >= 0 && !special {
 			k := fb - 300
 			orig := append([]byte(nil), p.Body[328+48*k:376+48*k]...)
